@@ -10,7 +10,7 @@ PROC_TIMEOUT = 1500
 RULE = ('schedules of the cooperative scheduler (scheduling points = wrapped pthread calls): for each scenario '
         '(ExecutorThread with 0-3 producers x 0-3 callbacks; FutureImpl raw-pointer pattern; FutureImpl with 0-2 '
         'extra getter copies; ExecutorThread with callbacks that call Execute again; SelectServer::Execute from 1-3 threads with callbacks that call Execute again, 0-3 RunOnce '
-        'iterations, rest drained by the destructor; PeriodicThread constructor + Stop with schedulable time-outs of the timed wait; ThreadPool with two workers and 1-3 closures; MutexLocker with early Release and two contenders; real FileBackedPreferences + FilePreferenceSaverThread (SetValue, Save, SetValue, Synchronize, read file, Join); SelectServer with a callback that calls DrainCallbacks(); the event loop blocks in select() (wrapped) and a sleeping loop with queued callbacks and an empty pipe is reported as lost-wakeup) the non-preemptive run, every single preemption (position x thread), pairs of '
+        'iterations, rest drained by the destructor; PeriodicThread constructor + Stop with schedulable time-outs of the timed wait; ThreadPool with two workers and 1-3 closures; MutexLocker with early Release and two contenders; real FileBackedPreferences + FilePreferenceSaverThread (SetValue, Save, SetValue, Synchronize, read file, Join; two concurrent Synchronize callers; Start immediately followed by Join); SelectServer::Run with Execute/Terminate/Execute/Execute from another thread, Run again after Terminate; SelectServer with a callback that calls DrainCallbacks(); the event loop blocks in select() (wrapped) and a sleeping loop with queued callbacks and an empty pipe is reported as lost-wakeup) the non-preemptive run, every single preemption (position x thread), pairs of '
         'preemptions (all in thorough, sampled in quick except for the two small Future scenarios, where all pairs run in quick), injected spurious wake-ups at every position (alone and '
         'combined with a preemption), and random schedules; non-trivial = the run has >= 1 wait/wake or >= 1 callback '
         'run and ends normally; distinct = distinct model output line (trace of synchronisation operations)')
@@ -100,7 +100,8 @@ LEVEL_TEXT = ('Coq theorems over ALL schedules (induction on the step relation o
               'nothing runs twice, everything queued has run exactly once when the owner finishes '
               '(c17_ss_nested_drain_exec_once; queue order is not claimed there). MutexLocker with early Release(): no unlock '
               'by a non-owner (c17_locker_no_bad_unlock). Preference-saver hand-off: the owner-only map is accessed only '
-              'under the owner token and never by the saver thread (c17_lockset, c17_prefs_owner_only). '
+              'under the owner token and never by the saver thread (c17_lockset, c17_prefs_owner_only); witness schedule for the '
+              'Start();Join() hang of the saver before fix 05 (c17_saver_join_hang_before_fix). '
               'NOT proved for all schedules, only checked per enumerated schedule (scheduling points before every wrapped '
               'pthread call / select() and after every unlock; ASan in the harness child) by trace equality with the real '
               'classes: ThreadPool exactly-once and no-lost-wake-up (c17_pool_exec_once / c17_pool_no_lost_wakeup are NOT '
